@@ -5,7 +5,8 @@
    nested transaction is rolled back and the clause is proved in full. *)
 From Continuum Require Import Model.Base Model.VTable Model.Core Model.Savepoint
      Proofs.CoreP Proofs.CoreChainP Proofs.RollbackP Proofs.SavepointP
-     Model.Manager Proofs.ManagerP Gen.ManagerGen Proofs.ManagerGenP Gen.UowGen Proofs.UowGenP.
+     Model.Manager Proofs.ManagerP Gen.ManagerGen Proofs.ManagerGenP Gen.UowGen Proofs.UowGenP
+     Model.ManagerSp Gen.ManagerSpGen Proofs.ManagerSpGenP Proofs.ManagerSpP.
 
 (* whatever happened inside the transaction - any number of flushes, any partial work, a failure at
    any statement - the rollback restores the committed database and the initial unit of work *)
@@ -73,6 +74,22 @@ Theorem C06_savepoint_state_is_complete_in_the_code : forall f kind,
   exists how, how_saved f = Some how /\ snapshot_ok kind how = true /\ restored f = true.
 Proof. exact savepoint_state_is_complete. Qed.
 
+(* ... and the manager's side of a savepoint rollback (rollback_savepoint: put the remembered unit of work back, or
+   drop a unit of work that came into being inside the savepoint together with the session's map entry) is generated
+   from the current manager.py as well (harness/pytrans_sp.py) and equals the model's; in any interleaving of
+   independent sessions each session then behaves as the single-session machine above (Proofs/ManagerSpP.v) *)
+Theorem C06_rollback_savepoint_is_the_code : forall G sid saved,
+  gen_rollback_savepoint (g_uows G) (g_smap G) sid saved =
+  (g_uows (rollback_savepoint G sid saved), g_smap (rollback_savepoint G sid saved)).
+Proof. exact gen_rollback_savepoint_is_model. Qed.
+
+Theorem C06_every_session_is_the_savepoint_machine : forall dbapi closed conn_of,
+  (forall a b, conn_of a = conn_of b -> a = b) ->
+  forall g s sched,
+  owns conn_of s -> sched_ok_sp dbapi closed conn_of s sched ->
+  m_of (gsrun dbapi closed g sched) s = mrun g (map mev_of (map snd (filter (mine_sp s) sched))).
+Proof. exact interleaved_session_is_savepoint_run. Qed.
+
 Theorem C06_model_unit_of_work_is_in_the_snapshot :
   forallb (fun f => match kind_of f with Some _ => true | None => false end) [F_CUR; F_OPS; F_VOBJS; F_PEND] = true.
 Proof. exact model_components_are_fields. Qed.
@@ -104,4 +121,6 @@ Print Assumptions C06_clear_connection_is_the_code.
 Print Assumptions C06_clear_is_the_code.
 Print Assumptions C06_clear_inside_savepoint_does_nothing.
 Print Assumptions C06_savepoint_state_is_complete_in_the_code.
+Print Assumptions C06_rollback_savepoint_is_the_code.
+Print Assumptions C06_every_session_is_the_savepoint_machine.
 Print Assumptions C06_model_unit_of_work_is_in_the_snapshot.
